@@ -3,6 +3,7 @@
 package consul
 
 import (
+	"time"
 	"bytes"
 	"fmt"
 	"io"
@@ -20,6 +21,8 @@ import (
 
 	"github.com/hashicorp/consul/api"
 
+	"github.com/fabiolb/fabio/config"
+	"github.com/fabiolb/fabio/metrics"
 	"github.com/fabiolb/fabio/route"
 	"github.com/fabiolb/fabio/zzverif/ev"
 )
@@ -28,6 +31,13 @@ func init() {
 	if os.Getenv("VERIF_LOG") == "" {
 		log.SetOutput(io.Discard)
 	}
+	// routes name their metrics when a table is built, also the one-line tables routecmd.build validates with: run
+	// with a flat provider (names from the default template over service, host, path and target URL) and prometheus
+	mp, err := metrics.Initialize(&config.Metrics{Target: "prometheus,statsd_raw", Prefix: "verifc14", Names: "{{clean .Service}}.{{clean .Host}}.{{clean .Path}}.{{clean .TargetURL.Host}}", Interval: time.Hour, StatsDAddr: "127.0.0.1:18125"})
+	if err != nil {
+		panic("VERIF-INFRA: " + err.Error())
+	}
+	route.SetMetricsProvider(mp)
 }
 
 func consulParallel(n int, f func(i int)) {
@@ -146,7 +156,7 @@ func c14Expectation(e c14Entry) c14Expect {
 			x.expressible = false
 		}
 		if strings.Contains(t, ",") {
-			x.open = true // a tag containing a comma cannot be told apart from two tags in the command language
+			x.expressible = false // a tag containing a comma would read as two tags in the command language
 		}
 		if t != strings.TrimSpace(t) || t == "" {
 			x.open = true
@@ -202,12 +212,12 @@ func c14Sig(kind string, e c14Entry) string {
 
 func TestVerifC14Registrations(t *testing.T) {
 	L := ev.Begin("C14", "c14-registrations", "exploration",
-		"catalog entries: name {svc, svc-1, 'sv c', 'billing /pay'} x address {v4, v6, empty->node address, IPv4-mapped v6} x port {0,80,65535} x urlprefix part {/x, foo.com/x, FOO.com/, :1234, foo.com (no slash), ${DC}.foo.com/, /[, empty} x every <=2-subset of 21 option strings (strip, proto=https/tcp/grpc and values that select no scheme (tcp+sni, http, bare proto), weight=0.2/abc/Inf/empty/-1, redirect with and without url, host=dst, allow, a=\"b\", tlsskipverify, bare flag) x extra tags {none, v1, two tags, quoted, backslash, non-ASCII, spaced, newline, quote+newline+a second command}; each next to a second well-formed service. The generated commands go through route.NewTable as makeConfig would emit them. oracle: (a) the whole text is accepted and the well-formed neighbour is present; (b) an expressible entry yields the target that denotes it (service, host/path, destination, weight, tags, opts), an inexpressible one is absent. non-trivial = entry with options or extra tags")
+		"catalog entries: name {svc, svc-1, 'sv c', 'billing /pay'} x address {v4, v6, empty->node address, IPv4-mapped v6} x port {0,80,65535} x urlprefix part {/x, foo.com/x, FOO.com/, :1234, foo.com (no slash), ${DC}.foo.com/, /[, empty} x every <=2-subset of 22 option strings (strip, proto=https/tcp/grpc and values that select no scheme (tcp+sni, http, bare proto), weight=0.2/abc/Inf/empty/-1, redirect with and without url and to a path on the same host, host=dst, allow, a=\"b\", tlsskipverify, bare flag) x extra tags {none, v1, two tags, quoted, backslash, non-ASCII, spaced, newline, quote+newline+a second command}; each next to a second well-formed service. The generated commands go through route.NewTable as makeConfig would emit them. oracle: (a) the whole text is accepted and the well-formed neighbour is present; (b) an expressible entry yields the target that denotes it (service, host/path, destination, weight, tags, opts), an inexpressible one is absent. non-trivial = entry with options or extra tags")
 	names := []string{"svc", "svc-1", "sv c", "billing /pay"}
 	addrs := []string{"10.1.2.3", "2001:db8::7", "", "::ffff:10.0.0.1"}
 	ports := []int{0, 80, 65535}
 	prefixes := []string{"/x", "foo.com/x", "FOO.com/", ":1234", "foo.com", "${DC}.foo.com/", "/[", "", "/x;y"}
-	optPool := []string{"strip=/x", "proto=https", "proto=tcp", "proto=grpc", "weight=0.2", "weight=abc", "weight=Inf", "weight=", "weight=-1", "redirect=301,https://t.example/", "redirect=301", "redirect=302,https://t.example$path", "host=be-$DC.internal", "host=dst", "allow=ip:10.0.0.0/8", "a=\"b\"", "tlsskipverify=true", "flag", "proto=tcp+sni", "proto=http", "proto"}
+	optPool := []string{"strip=/x", "proto=https", "proto=tcp", "proto=grpc", "weight=0.2", "weight=abc", "weight=Inf", "weight=", "weight=-1", "redirect=301,https://t.example/", "redirect=301", "redirect=302,https://t.example$path", "redirect=301,/new", "host=be-$DC.internal", "host=dst", "allow=ip:10.0.0.0/8", "a=\"b\"", "tlsskipverify=true", "flag", "proto=tcp+sni", "proto=http", "proto"}
 	var optSets [][]string
 	optSets = append(optSets, nil)
 	for i := range optPool {
@@ -219,7 +229,7 @@ func TestVerifC14Registrations(t *testing.T) {
 			optSets = append(optSets, []string{optPool[i], optPool[j]})
 		}
 	}
-	extras := [][]string{nil, {"v1"}, {"a", "b"}, {"say \"hi\""}, {"back\\slash"}, {"ünï"}, {" spaced "}, {"line\nbreak"}, {"v1", "say \"hi\""}, {"x\"\nroute del good tags \"y"}, {"x\"\nroute add evil / http://6.6.6.6:66/ tags \"y"}, {"x\" opts \"strip=/x"}, {"x\" weight 0.9 tags \"y"}, {"v1\";route del good;route add evil / http://6.6.6.6:66/ tags \"v1"}, {"semi;colon"}}
+	extras := [][]string{nil, {"v1"}, {"a", "b"}, {"say \"hi\""}, {"back\\slash"}, {"ünï"}, {" spaced "}, {"line\nbreak"}, {"v1", "say \"hi\""}, {"x\"\nroute del good tags \"y"}, {"x\"\nroute add evil / http://6.6.6.6:66/ tags \"y"}, {"x\" opts \"strip=/x"}, {"x\" weight 0.9 tags \"y"}, {"v1\";route del good;route add evil / http://6.6.6.6:66/ tags \"v1"}, {"semi;colon"}, {"a,b"}, {"v1", "owner=smith,john"}}
 	var entries []c14Entry
 	for _, n := range names {
 		for ai, a := range addrs {
